@@ -193,7 +193,8 @@ pub unsafe extern "C" fn cao_compile_json(
                 return CompileResult::cao_CompileResult_EmptyVariable
             }
             CompilationErrorPayload::NoMain => return CompileResult::cao_CompileResult_NoMain,
-            CompilationErrorPayload::BadFunctionName(_) => {
+            CompilationErrorPayload::BadFunctionName(_)
+            | CompilationErrorPayload::BadModuleName(_) => {
                 return CompileResult::cao_CompileResult_BadFunctionName
             }
             CompilationErrorPayload::RecursionLimitReached(_) => {
